@@ -2,7 +2,8 @@
   `Validate/Chain.lean` with the rules' enter function as a PARAMETER (generated from it by renaming: same traversal,
   same `SkipNode` handling), so that the chain can be run with the memoised overlap search (`enterRuleM`,
   /repo 7e75356) while `Chain.lean` - the chain of the theorems - stays as it is. `visitDocumentPar enterRule = visitDocument`
-  by construction (not proved; the correspondence cross-checks both chains on every ranked document).
+  (proved: `Lemmas/ValidateChainParEq.lean: visitDocumentPar_eq`; the correspondence also cross-checks both chains on every
+  ranked document).
 -/
 import PyGqlModel.Validate.Chain
 import PyGqlModel.Validate.OverlapMemo
@@ -89,7 +90,7 @@ end
 def visitVarDefPar (er : ER) (c : Cfg) (v : VarDef) (st : St) : St :=
   visitNodePar er c (.varDef v) (fun st =>
     let st := match v.default with | some d => visitValuePar er c d st | none => st
-    visitNodePar er c (.typeNode v.type) id st) st
+    visitDirectivesPar er c v.dirs (visitNodePar er c (.typeNode v.type) id st)) st
 
 def visitDefPar (er : ER) (c : Cfg) (d : Def) (st : St) : St :=
   match d with
